@@ -312,7 +312,7 @@ theorem writeRound_hs' (C : Cfg) (P : HsP) (r : Bool) (data : Bytes) (hd : data 
     (hi : SideInv P r data s0) (c1 : Calm s1) (ee1 : s1.e = s0.e) (w1 : s1.w = s0.w) (l1 : s1.g.lastError = .none)
     (p1 : s1.g.pendingSend = s0.g.pendingSend) (i' : Nat) (hi' : 1 ≤ i') :
     (∃ j s2, writeRound C (chanWorld r) (engine P) i' data s1 = (.again j [], s2) ∧ Good P r data s0 s2 ∧
-      3 ≤ s2.e.stage ∧ s2.g.lastError = .none) ∨
+      3 ≤ s2.e.stage ∧ s2.g.lastError = .none ∧ s2.g.pendingSend = []) ∨
     (∃ s3, writeRound C (chanWorld r) (engine P) i' data s1 = (.stop (.ok data), s3) ∧ Good P r data s0 s3 ∧
       s3.g.lastError = .wantRead) := by
   have hp0 : s1.g.pendingSend = [] ∨ s1.g.pendingSend = data := by rw [p1]; exact hi.2.2.2.2.2.2.2
@@ -336,8 +336,8 @@ theorem writeRound_hs' (C : Cfg) (P : HsP) (r : Bool) (data : Bytes) (hd : data 
        t2, fun hcp => g2 hcp.1 hcp.2⟩
     simp only
     by_cases hb : 0 < k ∧ C.fixRoundReset = true
-    · rw [if_pos hb, hdrop]; exact ⟨_, _, rfl, hgood, hfin, hl⟩
-    · rw [if_neg hb, if_neg (by intro h; omega), hdrop]; exact ⟨_, _, rfl, hgood, hfin, hl⟩
+    · rw [if_pos hb, hdrop]; exact ⟨_, _, rfl, hgood, hfin, hl, rfl⟩
+    · rw [if_neg hb, if_neg (by intro h; omega), hdrop]; exact ⟨_, _, rfl, hgood, hfin, hl, rfl⟩
   | wantRead =>
     obtain ⟨hin2, hnw, hlt⟩ := a2
     right
@@ -356,14 +356,14 @@ theorem tlsWrite_hs (C : Cfg) (hC : 1 < C.stepsMax) (P : HsP) (r : Bool) (data :
     (s : St Hs Chan) (hi : SideInv P r data s) :
     ∃ k s', tlsWrite C (chanWorld r) (engine P) (setTimeout s 0) data = (.ok k, s') ∧ SideInv P r data s' ∧
       Tr P r s.e s.w s'.e s'.w ∧ (CanProg r s.e s.w → work P s'.e < work P s.e) ∧ Tight s' ∧
-      ((k = data.length ∧ 3 ≤ s'.e.stage ∧ s'.g.lastError = .none) ∨ k = 0) := by
+      ((k = data.length ∧ 3 ≤ s'.e.stage ∧ s'.g.lastError = .none ∧ s'.g.pendingSend = []) ∨ k = 0) := by
   simp only [tlsWrite]
   rcases gate P r data s hi with ⟨s1, e1, c1, ee1, w1, l1, p1⟩ | ⟨s1', e1', _, _, _, l1, hin⟩
   · rw [e1]
     simp only
     have hloop := writeLoop_rule C (chanWorld r) (engine P)
-      (fun i rest s' => (rest = data ∧ s' = s1 ∧ 1 < i) ∨ (rest = [] ∧ Good P r data s s' ∧ 3 ≤ s'.e.stage ∧ s'.g.lastError = .none))
-      (fun o s' => Good P r data s s' ∧ ((o = .ok [] ∧ 3 ≤ s'.e.stage ∧ s'.g.lastError = .none) ∨
+      (fun i rest s' => (rest = data ∧ s' = s1 ∧ 1 < i) ∨ (rest = [] ∧ Good P r data s s' ∧ 3 ≤ s'.e.stage ∧ s'.g.lastError = .none ∧ s'.g.pendingSend = []))
+      (fun o s' => Good P r data s s' ∧ ((o = .ok [] ∧ 3 ≤ s'.e.stage ∧ s'.g.lastError = .none ∧ s'.g.pendingSend = []) ∨
         (o = .ok data ∧ s'.g.lastError = .wantRead)))
       (by intro i rest s' h hex
           rcases h with ⟨h1, _, h3⟩ | ⟨h1, h2, h3⟩
@@ -384,21 +384,21 @@ theorem tlsWrite_hs (C : Cfg) (hC : 1 < C.stepsMax) (P : HsP) (r : Bool) (data :
       (by intro i' rest s' j rest' s'' h hne heq
           rcases h with ⟨h1, h2, h3⟩ | ⟨h1, _⟩
           · subst h1; subst h2
-            rcases writeRound_hs' C P r rest hd s s' hi c1 ee1 w1 l1 p1 i' (by omega) with ⟨j2, s2, hr, hg, hf, hl⟩ | ⟨s3, hr, _, _⟩
+            rcases writeRound_hs' C P r rest hd s s' hi c1 ee1 w1 l1 p1 i' (by omega) with ⟨j2, s2, hr, hg, hf, hl, hpd⟩ | ⟨s3, hr, _, _⟩
             · rw [hr] at heq
               simp only [Prod.mk.injEq, Next.again.injEq] at heq
               obtain ⟨⟨_, rfl⟩, rfl⟩ := heq
-              exact Or.inr ⟨rfl, hg, hf, hl⟩
+              exact Or.inr ⟨rfl, hg, hf, hl, hpd⟩
             · rw [hr] at heq; simp at heq
           · exact absurd h1 hne)
       C.stepsMax data s1 (Or.inl ⟨rfl, rfl, hC⟩)
     rcases hw : writeLoop C (chanWorld r) (engine P) C.stepsMax data s1 with ⟨o, s''⟩
     rw [hw] at hloop
     obtain ⟨⟨hside, ht, hp⟩, hcase⟩ := hloop
-    rcases hcase with ⟨ho, hf, hl⟩ | ⟨ho, hl⟩
+    rcases hcase with ⟨ho, hf, hl, hpd⟩ | ⟨ho, hl⟩
     · simp only at ho
       subst ho
-      exact ⟨_, s'', rfl, hside, ht, hp, (by intro h; have hf' : 3 ≤ s''.e.stage := hf; omega), Or.inl ⟨by simp, hf, hl⟩⟩
+      exact ⟨_, s'', rfl, hside, ht, hp, (by intro h; have hf' : 3 ≤ s''.e.stage := hf; omega), Or.inl ⟨by simp, hf, hl, hpd⟩⟩
     · simp only at ho
       subst ho
       exact ⟨_, s'', rfl, hside, ht, hp, fun _ => hl, Or.inr (by simp)⟩
@@ -638,8 +638,8 @@ def asTS (C : Cfg) (hC : 1 < C.stepsMax) (P : HsP) (dc ds : Bytes) (hdc : dc ≠
   inv := AInv P dc ds
   mu y := work P y.ep + work P y.x.s.e
   side a := match a with
-    | .drive => false
-    | .peer _ => true
+    | .drive => some false
+    | .peer _ => some true
   can y r := if r then CanProg true y.ep y.x.s.w else CanProg false y.x.s.e y.x.s.w
   fin := SysAS.bothFinished
   ok := ActA.okA
@@ -651,11 +651,15 @@ def asTS (C : Cfg) (hC : 1 < C.stepsMax) (P : HsP) (dc ds : Bytes) (hdc : dc ≠
       refine ⟨i1, ?_, ?_, ?_, ?_⟩
       · show work P _ + work P _ ≤ work P _ + work P _
         rw [e1]; omega
-      · intro hp
+      · intro r hr hp
+        have hr' : r = false := by cases hr; rfl
+        subst hr'
         have := p1 hp
         show work P _ + work P _ < work P _ + work P _
         rw [e1]; omega
-      · intro hp
+      · intro r hr hp
+        have hr' : r = true := by cases r <;> simp_all
+        subst hr'
         show CanProg true _ _
         rw [e1]
         obtain ⟨h1, h2⟩ := hp
@@ -670,11 +674,15 @@ def asTS (C : Cfg) (hC : 1 < C.stepsMax) (P : HsP) (dc ds : Bytes) (hdc : dc ≠
       refine ⟨i1, ?_, ?_, ?_, ?_⟩
       · show work P _ + work P _ ≤ work P _ + work P _
         rw [e1]; omega
-      · intro hp
+      · intro r hr hp
+        have hr' : r = true := by cases hr; rfl
+        subst hr'
         have := p1 hp
         show work P _ + work P _ < work P _ + work P _
         rw [e1]; omega
-      · intro hp
+      · intro r hr hp
+        have hr' : r = false := by cases r <;> simp_all
+        subst hr'
         show CanProg false _ _
         rw [e1]
         obtain ⟨h1, h2⟩ := hp
